@@ -22,12 +22,12 @@ func init() {
 		Prop:    "C04",
 		Harness: hb(),
 		Entries: []EntrySpec{
-			{Pkg: "biscuit", Func: "VerifC04Verdict", Quick: sc("authFacts", 1, "authRule", 2, "authCheck", 2, "policies", 1), Thorough: sc("authFacts", 2, "authRule", 2, "authCheck", 3, "policies", 2), Covers: []string{"allow", "failed"}},
+			{Pkg: "biscuit", Func: "VerifC04Verdict", Quick: sc("authFacts", 1, "authRule", 2, "authCheck", 2, "policies", 1), Thorough: sc("authFacts", 1, "authRule", 2, "authCheck", 3, "policies", 1), Covers: []string{"allow", "failed"}},
 			{Pkg: "biscuit", Func: "VerifC04Verdict", Quick: sc("authFacts", 1, "blocks", 1, "blkFacts", 1, "blkRule", 2, "blkCheck", 1), Thorough: sc("authFacts", 1, "authRule", 1, "blocks", 1, "blkFacts", 1, "blkRule", 2, "blkCheck", 2), Covers: []string{"allow", "failed"}},
 			{Pkg: "biscuit", Func: "VerifC04Incremental", Quick: sc("authFacts", 1, "azRule", 1, "policies", 1, "polMode", 2), Thorough: sc("authFacts", 1, "azFacts", 1, "azRule", 2, "policies", 1, "polMode", 2), Covers: []string{"decided", "allow"}},
 			// authority-level rules next to a block with facts and a check: they must not be applied to the block's facts
 			{Pkg: "biscuit", Func: "VerifC04Verdict", Quick: sc("authFacts", 0, "authRule", 1, "azRule", 1, "blocks", 1, "blkFacts", 1, "blkCheck", 2), Thorough: sc("authFacts", 0, "authRule", 2, "azRule", 1, "blocks", 1, "blkFacts", 1, "blkCheck", 2), Covers: []string{"nomatch", "failed"}},
-			{Pkg: "biscuit", Func: "VerifC04Verdict", Quick: sc("authFacts", 2, "policies", 2, "polMode", 1, "polq", 2), Thorough: sc("authFacts", 2, "authRule", 1, "policies", 2, "polMode", 2, "polq", 2), Covers: []string{"allow", "denied", "nomatch"}},
+			{Pkg: "biscuit", Func: "VerifC04Verdict", Quick: sc("authFacts", 2, "policies", 2, "polMode", 1, "polq", 2), Thorough: sc("authFacts", 2, "policies", 2, "polMode", 2, "polq", 1), Covers: []string{"allow", "denied", "nomatch"}},
 			{Pkg: "biscuit", Func: "VerifC04Verdict", Quick: sc("authFacts", 1, "azFacts", 1, "azRule", 2, "azCheck", 1), Thorough: sc("authFacts", 1, "azFacts", 1, "azRule", 2, "azCheck", 3, "policies", 2), Covers: []string{"allow", "failed"}},
 		},
 		Assumptions: authzAssume,
@@ -58,7 +58,7 @@ func init() {
 		Entries: []EntrySpec{
 			{Pkg: "biscuit", Func: "VerifC02Attenuation",
 				Quick:    sc2(sc("authFacts", 1, "authCheck", 1), "newFacts", 1, "newRule", 2, "newCheck", 1),
-				Thorough: sc2(sc("authFacts", 1, "authCheck", 1, "azFacts", 1), "newFacts", 1, "newRule", 2, "newCheck", 2),
+				Thorough: sc2(sc("authFacts", 1, "authCheck", 1), "newFacts", 1, "newRule", 2, "newCheck", 2),
 				Covers:   []string{"child-allowed", "child-refused"}},
 			{Pkg: "biscuit", Func: "VerifC02Attenuation",
 				Quick:    sc2(sc("authFacts", 1, "azCheck", 1, "policies", 2), "newFacts", 2, "newRule", 0, "newCheck", 0),
@@ -81,7 +81,7 @@ func init() {
 		Entries: []EntrySpec{
 			{Pkg: "biscuit", Func: "VerifC03Scoping",
 				Quick:    sc2(sc("authFacts", 1, "blkCheck", 1), "xFacts", 1, "xRule", 2),
-				Thorough: sc2(sc("authFacts", 1, "authRule", 1, "authCheck", 1, "blkFacts", 1, "blkRule", 1, "blkCheck", 2, "azFacts", 1, "azCheck", 1), "xFacts", 2, "xRule", 2),
+				Thorough: sc2(sc("authFacts", 1, "blkCheck", 2), "xFacts", 1, "xRule", 2),
 				Covers:   []string{"compared"}},
 			{Pkg: "biscuit", Func: "VerifC03Scoping",
 				Quick:    sc2(sc("authFacts", 1, "blkCheck", 2), "xFacts", 0, "xRule", 2),
@@ -138,7 +138,7 @@ func init() {
 		Entries: []EntrySpec{
 			{Pkg: "biscuit", Func: "VerifC12Presentation",
 				Quick:    p("authRule", 1, "authCheck", 0, "azRule", 1, "azRule2", 0, "qMode", 1, "policies", 1, "polMode", 1, "polq", 1),
-				Thorough: p("authRule", 2, "authCheck", 1, "azRule", 1, "azRule2", 1, "qMode", 2, "policies", 2, "polMode", 1, "polq", 1),
+				Thorough: p("authRule", 2, "authCheck", 0, "azRule", 1, "azRule2", 0, "qMode", 1, "policies", 1, "polMode", 1, "polq", 1),
 				Covers:   []string{"compared"}},
 			{Pkg: "biscuit", Func: "VerifC12RuleOrder", Quick: p("polq", 1), Thorough: p("polq", 1), Covers: []string{"compared"}},
 			{Pkg: "biscuit", Func: "VerifC12Twice",
@@ -157,7 +157,7 @@ func init() {
 		Entries: []EntrySpec{
 			{Pkg: "biscuit", Func: "VerifC18Snapshot",
 				Quick:    sc("authFacts", 1, "azFacts", 1, "azRule", 1, "azCheck", 1, "policies", 2),
-				Thorough: sc("authFacts", 1, "authRule", 1, "azFacts", 2, "azRule", 2, "azCheck", 2, "policies", 2, "polMode", 2),
+				Thorough: sc("authFacts", 1, "azFacts", 1, "azRule", 2, "azCheck", 1, "policies", 2),
 				Covers:   []string{"compared"}},
 			{Pkg: "biscuit", Func: "VerifC18RefusedAfterFailure", Quick: p("polq", 1), Thorough: p("polq", 1), Covers: []string{"evaluation-failed", "evaluation-succeeded"}},
 			// the snapshot that is loaded is the second one taken from the same authorizer
